@@ -62,6 +62,12 @@ def run(tier, seed):
             cases.append({"arch": arch, "stmts": [("org", ("num", start)), ("label", "before")] + sts + [("label", "after")],
                           "src": f"@org ${start:x}\nbefore:\n{line}\nafter:\n", "files": {}, "note": "ends-at-top"})
             n_top += 1
+    for arch in ("6502", "sm83"):
+        for ln, sts, line in ((1, [("dbstr", b"\0")], "@db"), (2, [("dw", ("num", 0))], "@dw"), (3, [("ds", ("num", 3), None)], "@ds 3")):
+            start = 0x10000 - ln
+            cases.append({"arch": arch, "stmts": [("segment", False), ("org", ("num", start)), ("label", "before")] + sts + [("label", "after")],
+                          "src": f'@segment "ADDR"\n@org ${start:x}\nbefore:\n{line}\nafter:\n', "files": {}, "note": "addr-ends-at-top"})
+            n_top += 1
     res = core.run_cases(chk, cases, "m")
     ok = sum(1 for r in res if r["impl"]["kind"] == "OK")
     for r in res:
